@@ -305,6 +305,10 @@ def run(out: Outcome) -> None:
     # the cut the window holds only small values and its sum and variance must be theirs
     for _ in range(6 if thorough else 3):
         big, small = rng.choice([1e5, 1e8, 1e11]), rng.choice([1e-6, 1e-3, 1.0])
+        if _ < 2:
+            # (two ratios of 1e11 / 1e12 in every run, at magnitudes where the rounding budget of the large regime is still far below the sum of the small one: what is
+            # left after the cut is below any FIXED relative resolution of what left, and must still be right)
+            big, small = [(1e5, 1e-6), (1e3, 1e-9)][_]
         p = rng.choice([{}, {"clock": 1, "delta": 0.002, "m": 5, "min_window_size": 5, "min_num_instances": 10}, {"clock": 4, "delta": 0.05, "m": 3, "min_window_size": 2, "min_num_instances": 5}])
         xs = [abs(rng.gauss(big, big * 1e-3)) for _ in range(rng.randint(60, 400))] + [abs(rng.gauss(small, small * 0.2)) for _ in range(rng.randint(150, 500))]
         check(out, p, xs, runners)
